@@ -1,5 +1,8 @@
 /-
-C13 — statically valid, variable-free arguments always coerce (CoerceArgumentValues succeeds).
+C13 — statically valid arguments always coerce (CoerceArgumentValues succeeds), with variables:
+under the postcondition of CoerceVariableValues (`VarsOk`), the law `OpsSoundV` of the value
+layer, and when the run-time exception of the specification does not apply at the argument
+(`excArgs = false`).
 -/
 import Gql.Exec.ValidDoc
 import Gql.Exec.Shape
@@ -7,8 +10,49 @@ import Gql.Exec.Shape
 namespace Gql.Exec.Valid
 open Gql.Exec
 
-/-- what soundness needs from the value layer (C15): a literal that passes the static check
-without variables is coercible, under any variable values -/
+/-- What CoerceVariableValues guarantees about the variable values it hands to execution: a
+variable whose declared type is Non-Null, or that has a default value, has a runtime value. -/
+def VarsOk (env : List VarDef) (vars : Vars) : Prop :=
+  ∀ vd ∈ env, (vd.type.nonNull = true ∨ vd.default.isSome = true) →
+    (vars.lookup vd.name).isSome = true
+
+mutual
+/-- a coerced value is of the input type `t` (what CoerceVariableValues produces for a variable
+declared with type `t`) -/
+def pyConforms (s : Schema) : TypeRef → PyVal → Prop
+  | t, .null => t.nonNull = false
+  | t, .list xs =>
+    match t with
+    | .list t' _ => pyConformsL s t' xs
+    | .named _ _ => False
+  | t, v =>
+    match t with
+    | .named n _ => s.kind n = .leaf ∨ s.kind n = .input
+    | .list _ _ => (match v with | .list _ => True | _ => False)
+def pyConformsL (s : Schema) (t : TypeRef) : List PyVal → Prop
+  | [] => True
+  | x :: xs => pyConforms s t x ∧ pyConformsL s t xs
+end
+
+/-- every variable value is of the declared type of its variable -/
+def VarsTyped (s : Schema) (env : List VarDef) (vars : Vars) : Prop :=
+  ∀ vd ∈ env, ∀ w, vars.lookup vd.name = some w → pyConforms s vd.type w
+
+/-- What soundness needs from the value layer (C15), for the variable environment `env` and the
+variable values `vars` of a request: when the variable values are of their declared types, a
+value that passes the static check (ValuesOfCorrectType + VariablesInAllowedPosition) at a
+position of type `t`, where the run-time exception does not apply, and that is not itself a
+variable without runtime value (CoerceArgumentValues handles that case before coercing), is
+coercible.  Missing variables *inside* list and object literals are the value layer's business
+(list item → null, object field → absent/default). -/
+def OpsSoundV (ops : Ops) (s : Schema) (env : List VarDef) (vars : Vars) : Prop :=
+  VarsTyped s env vars →
+  ∀ (t : TypeRef) (d : Bool) (v : Value), validValue s env t d v = true →
+    excValue s env vars t v = false →
+    (∀ x, v = .var x → (vars.lookup x).isSome = true) →
+    ops.coerceLiteral s vars t v ≠ none
+
+/-- the closed-literal instance used by stage 1 -/
 def OpsSound (ops : Ops) (s : Schema) : Prop :=
   ∀ (t : TypeRef) (d : Bool) (v : Value), validValue s [] t d v = true →
     ∀ vars : Vars, ops.coerceLiteral s vars t v ≠ none
@@ -49,12 +93,42 @@ theorem validValue_var_false (s : Schema) (t : TypeRef) (d : Bool) (x : Name) :
   unfold validValue
   simp
 
-variable (scx : Spec.Ctx)
+/-- the variable is declared, and its usage at a position of type `t` is allowed -/
+theorem validValue_var {s : Schema} {env : List VarDef} {t : TypeRef} {d : Bool} {x : Name}
+    (h : validValue s env t d (.var x) = true) :
+    ∃ vd, env.find? (fun vd => vd.name == x) = some vd ∧ allowedUsage vd.type vd.default t d = true := by
+  unfold validValue at h
+  cases hf : env.find? (fun vd => vd.name == x) with
+  | none => simp [hf] at h
+  | some vd => exact ⟨vd, rfl, by simpa [hf] using h⟩
 
-/-- one argument definition under valid, variable-free arguments -/
-theorem argument_coerces (hops : OpsSound scx.ops scx.schema)
+/-- a variable used at a Non-Null position without location default is of a Non-Null type or has
+a (non-null) default -/
+theorem allowed_nonNull {vt : TypeRef} {vdft : Option Value} {t : TypeRef}
+    (h : allowedUsage vt vdft t false = true) (ht : t.nonNull = true) :
+    vt.nonNull = true ∨ vdft.isSome = true := by
+  unfold allowedUsage at h
+  cases hv : vt.nonNull with
+  | true => exact Or.inl rfl
+  | false =>
+    right
+    simp only [ht, hv, Bool.not_false, Bool.and_self, ↓reduceIte, Bool.not_true, Bool.and_true] at h
+    cases vdft with
+    | none => simp at h
+    | some d => rfl
+
+variable (scx : Spec.Ctx) (env : List VarDef)
+
+/-- one argument definition under valid arguments -/
+theorem argument_coerces (hvok : VarsOk env scx.vars)
+    (hops : ∀ (t : TypeRef) (d : Bool) (v : Value), validValue scx.schema env t d v = true →
+      excValue scx.schema env scx.vars t v = false →
+      (∀ x, v = .var x → (scx.vars.lookup x).isSome = true) →
+      scx.ops.coerceLiteral scx.schema scx.vars t v ≠ none)
     (defs : List ArgDef) (args : List (Name × Value))
-    (hv : validArgs scx.schema [] defs args = true) (a : ArgDef) (ha : a ∈ defs)
+    (hv : validArgs scx.schema env defs args = true)
+    (hexc : excArgs scx.schema env scx.vars defs args = false)
+    (a : ArgDef) (ha : a ∈ defs)
     (hdef : ∀ d, a.default = some d → scx.ops.coerceLiteral scx.schema [] a.type d ≠ none)
     (rest : List ArgDef) (acc : ArgMap)
     (ih : ∀ acc', ∃ m, Spec.coerceArgumentValues scx args rest acc' = some m) :
@@ -87,29 +161,112 @@ theorem argument_coerces (hops : OpsSound scx.ops scx.schema)
     have hp := hall _ hmem
     simp only [Bool.and_eq_true, List.all_eq_true, Bool.or_eq_true, bne_iff_ne, ne_eq] at hp
     have hval := hp.2 a ha
-    have hval' : validValue scx.schema [] a.type a.default.isSome v = true := by
+    have hval' : validValue scx.schema env a.type a.default.isSome v = true := by
       rcases hval with h | h
       · exact absurd rfl h
       · exact h
-    cases v with
-    | var x => rw [validValue_var_false] at hval'; cases hval'
+    have hexc' : excValue scx.schema env scx.vars a.type v = false := by
+      unfold excArgs at hexc
+      have h1 := List.any_eq_false.1 hexc _ hmem
+      simp only [List.any_eq_true, Bool.and_eq_true, beq_iff_eq, not_exists, not_and,
+        Bool.not_eq_true] at h1
+      exact h1 a ha rfl
+    cases hvar : v with
+    | var x =>
+      subst hvar
+      cases hx : scx.vars.lookup x with
+      | none =>
+        -- a variable without runtime value: default, or no entry; never at a required position
+        simp only [hx, Option.isSome_none, Bool.not_false, Bool.true_and]
+        cases hd : a.default with
+        | some d =>
+          simp only [Option.isSome_some, ↓reduceIte]
+          cases hc : scx.ops.coerceLiteral scx.schema [] a.type d with
+          | none => exact absurd hc (hdef d hd)
+          | some w => simpa using ih _
+        | none =>
+          simp only [Option.isSome_none, Bool.false_eq_true, ↓reduceIte]
+          cases hnn : a.type.nonNull with
+          | false => simpa using ih _
+          | true =>
+            obtain ⟨vd, hfind, hallow⟩ := validValue_var hval'
+            rw [hd] at hallow
+            have hvd : vd ∈ env := List.mem_of_find?_eq_some hfind
+            have hname : vd.name = x := by simpa using List.find?_some hfind
+            have := hvok vd hvd (allowed_nonNull hallow hnn)
+            rw [hname, hx] at this
+            cases this
+      | some w =>
+        simp only [hx, Option.isSome_some, Bool.not_true, Bool.false_and, Bool.false_eq_true, ↓reduceIte]
+        cases hc : scx.ops.coerceLiteral scx.schema scx.vars a.type (.var x) with
+        | none => exact absurd hc (hops _ _ _ hval' hexc' (by intro y hy; cases hy; simp [hx]))
+        | some r => simpa using ih _
     | _ =>
+      subst hvar
       simp only [Bool.not_true, Bool.false_and, Bool.false_eq_true, ↓reduceIte]
       first
         | (cases hc : scx.ops.coerceLiteral scx.schema scx.vars a.type _ with
-           | none => exact absurd hc (hops _ _ _ hval' _)
+           | none => exact absurd hc (hops _ _ _ hval' hexc' (by intro y hy; cases hy))
            | some w => simpa using ih _)
 
-theorem arguments_coerce (hops : OpsSound scx.ops scx.schema)
+theorem arguments_coerce (hvok : VarsOk env scx.vars)
+    (hops : ∀ (t : TypeRef) (d : Bool) (v : Value), validValue scx.schema env t d v = true →
+      excValue scx.schema env scx.vars t v = false →
+      (∀ x, v = .var x → (scx.vars.lookup x).isSome = true) →
+      scx.ops.coerceLiteral scx.schema scx.vars t v ≠ none)
     (defs : List ArgDef) (args : List (Name × Value))
-    (hv : validArgs scx.schema [] defs args = true)
+    (hv : validArgs scx.schema env defs args = true)
+    (hexc : excArgs scx.schema env scx.vars defs args = false)
     (hdef : ∀ a ∈ defs, ∀ d, a.default = some d → scx.ops.coerceLiteral scx.schema [] a.type d ≠ none) :
     ∀ (rest : List ArgDef), (∀ a ∈ rest, a ∈ defs) → ∀ acc, ∃ m,
       Spec.coerceArgumentValues scx args rest acc = some m
   | [], _, acc => ⟨acc, rfl⟩
   | a :: rest, hsub, acc =>
-    argument_coerces scx hops defs args hv a (hsub a (List.mem_cons_self ..)) (hdef a (hsub a (List.mem_cons_self ..)))
-      rest acc (fun acc' => arguments_coerce hops defs args hv hdef rest
+    argument_coerces scx env hvok hops defs args hv hexc a (hsub a (List.mem_cons_self ..))
+      (hdef a (hsub a (List.mem_cons_self ..)))
+      rest acc (fun acc' => arguments_coerce hvok hops defs args hv hexc hdef rest
         (fun b hb => hsub b (List.mem_cons_of_mem _ hb)) acc')
+
+end Gql.Exec.Valid
+
+namespace Gql.Exec.Valid
+open Gql.Exec
+
+mutual
+theorem excValue_nil (s : Schema) (vars : Vars) : (v : Value) → ∀ t, excValue s [] vars t v = false
+  | .var x, t => by simp [excValue]
+  | .int _, t => by cases t <;> simp [excValue]
+  | .flt _, t => by cases t <;> simp [excValue]
+  | .str _, t => by cases t <;> simp [excValue]
+  | .bool _, t => by cases t <;> simp [excValue]
+  | .null, t => by cases t <;> simp [excValue]
+  | .enum _, t => by cases t <;> simp [excValue]
+  | .list vs, t => by
+    cases t with
+    | named n nn => simp [excValue]
+    | list t' nn => simp only [excValue]; exact excItems_nil s vars vs t'
+  | .obj fs, t => by
+    unfold excValue
+    split
+    · exact excFields_nil s vars fs _
+    · rfl
+theorem excItems_nil (s : Schema) (vars : Vars) : (vs : List Value) → ∀ t, excItems s [] vars t vs = false
+  | [], t => by simp [excItems]
+  | v :: vs, t => by simp [excItems, excValue_nil s vars v t, excItems_nil s vars vs t]
+theorem excFields_nil (s : Schema) (vars : Vars) : (fs : List (Name × Value)) → ∀ defs,
+    excFields s [] vars defs fs = false
+  | [], defs => by simp [excFields]
+  | (n, v) :: fs, defs => by
+    unfold excFields
+    rw [excFields_nil s vars fs defs]
+    cases defs.find? (fun d => d.name == n) with
+    | none => rfl
+    | some d => simp [excValue_nil s vars v d.type]
+end
+
+theorem excArgs_nil (s : Schema) (vars : Vars) (defs : List ArgDef) (args : List (Name × Value)) :
+    excArgs s [] vars defs args = false := by
+  unfold excArgs
+  simp [excValue_nil]
 
 end Gql.Exec.Valid
